@@ -65,6 +65,7 @@ type Path struct {
 	notes  []string
 	envFires int
 	preempts int
+	mapOrders int
 	known    map[*Term]bool // conditions implied by the path condition (monotone: stays valid as pc grows)
 }
 
